@@ -863,7 +863,7 @@ func (h *H) reconcile(id recID, budget int) {
 			h.crash.mu.Lock()
 			h.crash.writeFault = h.r.Intn(3)
 			h.crash.mu.Unlock()
-		} else if _, holding := h.holdSucc[id.a]; id.kind == "prop" && (holding || h.r.Intn(2) == 0) {
+		} else if _, holding := h.holdSucc[id.a]; (id.kind == "prop" && (holding || h.r.Intn(2) == 0)) || (id.kind == "cfg" && h.r.Intn(2) == 0) {
 			// while the device call of this invocation (if it makes one) is in flight, another invocation about the
 			// same target runs
 			h.crash.mu.Lock()
@@ -1357,7 +1357,7 @@ func (h *H) interfere(outer recID) {
 	// mostly a later proposal of the same target (its linking writes the proposal that is being applied)
 	succ := []recID{}
 	for _, id := range cands {
-		if id.kind == "prop" && id.a == outer.a && id.idx > outer.idx {
+		if id.kind == "prop" && id.a == outer.a && (id.idx > outer.idx || outer.kind == "cfg") {
 			succ = append(succ, id)
 		}
 	}
@@ -1733,6 +1733,24 @@ func runScenario(seed int64, n int, out *bufio.Writer, kind string, suffix strin
 			h.settle(30, 0)
 		}
 		nev = r.Intn(2)
+	}
+	if n%16 == 2 && len(h.targets) >= 2 {
+		// scripted: a SERIALIZABLE change on one target in the middle of plain changes on another target, all submitted
+		// at once: the gates of a transaction look at the previous transaction OF ITS OWN TARGETS, not at its neighbour in
+		// the log
+		for _, t := range h.targets {
+			if len(h.connsOf(t)) == 0 && r.Intn(3) != 0 {
+				h.connUp(t)
+			}
+		}
+		ta, tb := h.targets[0], h.targets[1]
+		h.nbSet([]op{{target: tb, path: env.Pick(r, paths), val: fmt.Sprintf("v%d", r.Intn(1000))}}, false, false)
+		h.nbSet([]op{{target: ta, path: env.Pick(r, paths), val: fmt.Sprintf("v%d", r.Intn(1000))}}, r.Intn(2) == 0, true)
+		h.nbSet([]op{{target: tb, path: env.Pick(r, paths), val: fmt.Sprintf("v%d", r.Intn(1000))}}, false, false)
+		if r.Intn(2) == 0 {
+			h.nbSet([]op{{target: ta, path: env.Pick(r, paths), val: fmt.Sprintf("v%d", r.Intn(1000))}, {target: tb, path: env.Pick(r, paths), val: fmt.Sprintf("v%d", r.Intn(1000))}}, false, r.Intn(2) == 0)
+		}
+		nev = r.Intn(3)
 	}
 	if (n%16 == 13 || (kind == "atomic" && n%16 == 1) || (kind != "atomic" && n%16 == 5)) && len(h.targets) >= 2 {
 		// scripted (atomic and crash histories alike: exactly one change is pending when the refusal is due, so the twin
